@@ -45,6 +45,11 @@ def main():
             mp = os.path.join(sd, name, "meta.json")
             if os.path.exists(mp):
                 meta = json.load(open(mp))
+                if meta.get("superseded"):
+                    print(f"(skipped {name}: superseded - {meta['superseded'][:90]}...)")
+                    continue
+                if not meta.get("detected_by"):
+                    print(f"(note {name}: recorded as NOT detected by any check; running {meta['property']} for the record)")
                 items.append({"name": name, "patch": os.path.join(sd, name, "patch.diff"), "props": meta.get("detected_by") or [meta["property"]]})
     else:
         items = json.load(open(os.path.join(HERE, "mutants", "catalogue.json")))
